@@ -9,6 +9,7 @@ Not proved here (see OPEN_STATEMENTS in harness/c16.py): the operator-level stat
 Fock-space soundness of freeze_orbitals for whole operators, SCBK sector): Spec oracle only.
 -/
 import OFV.Proofs.C16
+import OFV.Proofs.C16Pauli
 
 namespace OFV.C16
 open OFV OFV.Spec OFV.Model OFV.Model.C16 OFV.C16P OFV.Generated
@@ -120,5 +121,75 @@ theorem sector_factor_spec (q s : Nat) :
   · intro q' p hq
     unfold actP
     split <;> simp [testBit_xflip_ne _ _ _ hq]
+
+/-! ### operator-level statements in `Module.End GQ (ℕ →₀ GQ)`
+
+`evOp A` is the endomorphism of the space of finite superpositions of computational basis states
+denoted by the QubitOperator `A`; its matrix elements are the shared Spec's. -/
+
+/-- `evOp` has the matrix elements of the shared Spec (`Spec.applyOp .qubit`). -/
+theorem evOp_matrix_elements (A : Model.Op) (m x : Nat) :
+    (evOp A (Finsupp.single m 1)) x = GV.coeff (applyOp .qubit A [m]) [x] :=
+  evOp_apply A m x
+
+/-- **`fix_single_term_equiv`**: whatever `fix_single_term` returns (the term itself or the term
+times the stabilizer) acts like the term on every state `ψ` stabilized by the stabilizer
+(`S ψ = ψ`), for arbitrary operators `term`, `stabilizer` with Pauli codes `< 4` (any coefficients,
+any signs, any number of terms). -/
+theorem fix_single_term_equiv (term stab r : Model.Op) (pos f o : Nat) (ht : Sem.ValidOp term)
+    (hs : Sem.ValidOp stab) (h : fixSingleTerm term pos f o stab = .ok r) (ψ : QS)
+    (hψ : evOp stab ψ = ψ) : evOp r ψ = evOp term ψ := by
+  cases term with
+  | nil => simp [fixSingleTerm, firstEntry] at h; cases h
+  | cons e t =>
+    simp only [fixSingleTerm, firstEntry] at h
+    have h' : (if (e.1.contains (pos, f) || e.1.contains (pos, o)) = true then
+        (Except.ok (mulOp .qubit (e :: t) stab) : Except Err Model.Op) else .ok (e :: t)) = .ok r := h
+    split at h'
+    · cases h'
+      rw [evOp_mulOp _ _ ht hs, Module.End.mul_apply, hψ]
+    · cases h'; rfl
+
+/-- non-vacuity: `X0 X1` stabilizes `|00⟩ + |11⟩` and `Z0 Z1` (containing `Z` at the fixed position 0)
+is multiplied by it -/
+example : fixSingleTerm [([(0, 3), (1, 3)], 1)] 0 3 2 [([(0, 1), (1, 1)], 1)]
+    = .ok (mulOp .qubit [([(0, 3), (1, 3)], 1)] [([(0, 1), (1, 1)], 1)]) := by decide +kernel
+
+/-- **`rotate_qubit_by_pauli_sound`**: for a Pauli string `P` on distinct qubits, `c² + s² = 1`,
+called with `cos 2θ = c² - s²`, `sin 2θ = 2cs`, the Model of `rotate_qubit_by_pauli` succeeds and
+its result denotes `(c - i s P) Q (c + i s P) = e^{-iθP} Q e^{iθP}` — as endomorphisms, for every
+QubitOperator `Q` with Pauli codes `< 4` and complex coefficients, in the exact regime of the four
+`+` / `-` it performs (`ExactAdd`: no partial sum is non-zero but below the tolerance). -/
+theorem rotate_qubit_by_pauli_sound (tol : Rat) (qop : Model.Op) (p : Model.Term) (c s : GQ)
+    (hq : Sem.ValidOp qop) (hp : Sem.ValidQ p) (hd : p.Pairwise (fun a b => a.1 ≠ b.1))
+    (hcs : c * c + s * s = 1)
+    (h1 : ExactAdd tol qop (rPQP qop [(p, 1)]))
+    (h2 : ExactAdd tol qop ((rPQP qop [(p, 1)]).map fun e => (e.1, -e.2)))
+    (h3 : ExactAdd tol (rEven tol qop [(p, 1)]) (Model.smul (c * c - s * s) (rOdd tol qop [(p, 1)])))
+    (h4 : ExactAdd tol (rA tol qop [(p, 1)] (c * c - s * s)) (rLast tol qop [(p, 1)] (2 * c * s))) :
+    ∃ r, rotateQubitByPauli tol qop [(p, 1)] (c * c - s * s) (2 * c * s) = .ok r ∧
+      evOp r = (c • (1 : Module.End GQ QS) - (GQ.I * s) • evT p) * evOp qop
+                 * (c • (1 : Module.End GQ QS) + (GQ.I * s) • evT p) := by
+  refine ⟨_, rotate_eq tol qop p _ _, ?_⟩
+  have hP : Sem.ValidOp [(p, (1 : GQ))] := by intro x hx; simp at hx; subst hx; exact hp
+  have hPQ : Sem.ValidOp (mulOp .qubit [(p, 1)] qop) := Sem.mulOp_valid hP hq
+  have hPQP : Sem.ValidOp (rPQP qop [(p, 1)]) := Sem.mulOp_valid hPQ hP
+  have hOdd : Sem.ValidOp (rOdd tol qop [(p, 1)]) := smul_valid _ _ (isub_valid tol _ _ hq hPQP)
+  have ePQP : evOp (rPQP qop [(p, 1)]) = evT p * evOp qop * evT p := by
+    rw [rPQP, evOp_mulOp _ _ hPQ hP, evOp_mulOp _ _ hP hq, evOp_pauli]
+  rw [evOp_iadd tol _ _ h4, rA, evOp_iadd tol _ _ h3, rLast, evOp_mulOp _ _ (smul_valid _ _ hOdd) hP,
+    evOp_smul, evOp_smul, evOp_pauli, rEven, rOdd, evOp_smul, evOp_smul, evOp_iadd tol _ _ h1,
+    evOp_isub tol _ _ h2, ePQP]
+  exact rot_identity (evOp qop) (evT p) (evT_sq p hd) c s rHalf hcs rHalf_add
+
+/-- non-vacuity: rotating `X0` about `Z0` with `(cos θ, sin θ) = (3/5, 4/5)` at the live tolerance -/
+example : c35 * c35 + s45 * s45 = 1 ∧
+    ExactAdd eqTolerance exX0 (rPQP exX0 [(exZ0, 1)]) ∧
+    ExactAdd eqTolerance exX0 ((rPQP exX0 [(exZ0, 1)]).map fun e => (e.1, -e.2)) ∧
+    ExactAdd eqTolerance (rEven eqTolerance exX0 [(exZ0, 1)])
+      (Model.smul (c35 * c35 - s45 * s45) (rOdd eqTolerance exX0 [(exZ0, 1)])) ∧
+    ExactAdd eqTolerance (rA eqTolerance exX0 [(exZ0, 1)] (c35 * c35 - s45 * s45))
+      (rLast eqTolerance exX0 [(exZ0, 1)] (2 * c35 * s45)) := by
+  decide +kernel
 
 end OFV.C16
